@@ -236,6 +236,29 @@ def h_stream_times_delay(ctx, cfg):
   ctx.prove(src.pulled == N, "coefficient-read-once-per-output", "pulled %d for %d outputs" % (src.pulled, N))
 
 
+def h_linearize_stream(ctx, cfg):
+  """linearize() of a fractional delay whose coefficient is a Stream: the two integer neighbours share the coefficient
+  sequence (weights 1-frac and frac), and the Stream is still read once per output."""
+  from audiolazy import Stream, z
+  from fractions import Fraction
+  N = cfg["N"]; k = cfg["k"]          # delay k + 1/2 (dyadic: exact in floats)
+  vals = ctx.reals("s", N); x = ctx.reals("x", N)
+  src = Counting(vals)
+  filt = (Stream(src) * z ** -(k + 0.5)).linearize()
+  ctx.prove(src.pulled == 0, "no-coefficient-read-before-demand", "pulled %d by linearize()" % src.pulled)
+  it_ = iter(filt(list(x), zero=0))
+  out = []
+  for n in range(N):
+    try: out.append(next(it_))
+    except StopIteration: break
+    ctx.prove(src.pulled == n + 1, "coefficient-read-once-per-output", "pulled %d after %d outputs" % (src.pulled, n + 1))
+  ctx.prove(len(out) == N, "linearize-stream:length", "%d outputs for %d inputs" % (len(out), N))
+  half = Fraction(1, 2)
+  for n in range(len(out)):
+    want = vals[n] * half * (x[n - k] if n - k >= 0 else 0) + vals[n] * half * (x[n - k - 1] if n - k - 1 >= 0 else 0)
+    ctx.prove(ctx.eq(out[n], want), "linearized-fractional-delay-uses-the-n-th-coefficient-value", "n=%d" % n)
+
+
 def tasks(tier, seed):
   T = []
   big = tier == "thorough"
@@ -294,4 +317,6 @@ def tasks(tier, seed):
   for side in ("left", "right"):
     for k in (0, 1, 2):
       T.append(("h_stream_times_delay", {"side": side, "k": k, "N": N}))
+  for k in (0, 1):
+    T.append(("h_linearize_stream", {"k": k, "N": N}))
   return T
